@@ -411,9 +411,12 @@ class ImmediateOperand(Operand):
         if not self.instruction.is_16_bit and self.value.is_numeric():
             if self.value.int > (0x80 if self.value.is_negative() else 0xFF):
                 raise OperandTypeError("[{}] does not fit in an 8-bit immediate value".format(self.operand_string))
+        additional = self.value
+        if self.instruction.is_16_bit and self.value.is_numeric() and not self.value.is_negative():
+            additional = NumericValue(self.value.int, size_hint=4)
         return CodePackage(
             op_code=NumericValue(self.instruction.mode.imm),
-            additional=self.value,
+            additional=additional,
             size=self.instruction.mode.imm_sz,
             max_size=self.instruction.mode.imm_sz,
         )
